@@ -239,6 +239,22 @@ def c16(run, replay=None):
         if both != want:
             run.violation("find %s: the list %r returns %r, but %r alone returns %r and %r alone %r" % (key, [a, b], sorted(both), a, sorted(ra), b, sorted(rb)),
                           dict(key=key, list=[a, b], tree=mt))
+    # regular expressions that are also valid JSON (a digit class like [12]): python's re decides these few
+    import re as _re
+    jt = ('d', 'r', [('f', 'log1', 1), ('f', 'log12', 1), ('f', 'log2', 1), ('f', 'log3', 1), ('f', 'plain', 1), ('f', 'x21', 1), ('d', 'sub', [('f', 'a2', 1), ('f', 'b7', 1)])])
+    jw = world_nodes(jt)
+    jnames = ["r/log1", "r/log12", "r/log2", "r/log3", "r/plain", "r/x21", "r/sub/a2", "r/sub/b7"]
+    jcases = []
+    for pat in ("[12]", "[5]", "[1,2]", "[3]", "[0-9]", "12", "[1][2]", "true", "null", "\\d"):
+        for key in ("patterns", "excludes"):
+            jcases.append((pat, key))
+    jouts = C.run_harness("find", [dict(world=jw, params="paths: ROOT/r\nrecurse: true\nfile_type: file\n%s: %s\n" % (key, json.dumps([pat])), lookup=True) for pat, key in jcases], prepare=prep)
+    for (pat, key), o in zip(jcases, jouts):
+        got = o.get("module", {}).get("ok")
+        hit = sorted(n for n in jnames if _re.search(pat, n.rsplit("/", 1)[1]))
+        want = hit if key == "patterns" else sorted(set(jnames) - set(hit))
+        if got is None or sorted(os.path.normpath(x) for x in got) != want or o.get("lookup", {}).get("ok") is None or sorted(os.path.normpath(x) for x in o["lookup"]["ok"]) != want:
+            run.violation("find %s: [%r] returns %r (lookup %r), expected %r" % (key, pat, got, o.get("lookup"), want), dict(key=key, pattern=pat, tree=jt, observed=o))
     # K34: the walker skips the file its own standard output is redirected to (ignore::WalkBuilder::skip_stdout)
     import subprocess
     kroot = os.path.join(FIND_ROOT, "k34")
